@@ -42,7 +42,7 @@ def _lost_mutation(runs):
 
 
 def run(sc, tier, replay):
-    off = ["nodupkey", "nodirid", "nofragdirs"]
+    off = ["nodirid", "nofragdirs"]
     strata = {"core": (off + ["noqueries", "oddids", "richargs"], 0.6),
               "core-faults": (off + ["noqueries"], 0.2, "faults"),
               "abstract": (off + ["noqueries", "abstract"], 0.2)}
